@@ -13,4 +13,5 @@ def extra_checks(tier="quick", seed=0):
     from pyvc import framescan
     from pyvc.api import REG
     src = os.path.dirname(os.path.dirname(os.path.abspath(codemodder.__file__)))
-    return framescan.obligations(src, REG.contracts)
+    from contracts.props.C17 import run_parse_args
+    return framescan.obligations(src, REG.contracts) + [run_parse_args(tier, seed, ("--path-include", "--path-exclude"))]
